@@ -132,8 +132,8 @@ Fixpoint wt_expr (fuel : nat) (P : program) (g : tenv) (e : expr) {struct fuel} 
     | Ex ei _ t =>
       match ei with
       | ETrue | EFalse => is_bool t
-      | ENumU n => lit_fits t (Z.of_N n)
-      | ENumS z => lit_fits t z
+      | ENumU n _ => lit_fits t (Z.of_N n)
+      | ENumS z _ => lit_fits t z
       | EId x => match tlookup g x with Some (tx, _) => ty_eqb tx t | None => false end
       | EArrLit es =>
           match t with
@@ -354,7 +354,7 @@ Definition wt_fn (P : program) (gc : tenv) (d : fndef) : bool :=
 (* global constants are literals (the exporter substitutes computed constants, C12) *)
 Definition is_lit (e : expr) : bool :=
   match e with
-  | Ex ETrue _ _ | Ex EFalse _ _ | Ex (ENumU _) _ _ | Ex (ENumS _) _ _ => true
+  | Ex ETrue _ _ | Ex EFalse _ _ | Ex (ENumU _ _) _ _ | Ex (ENumS _ _) _ _ => true
   | _ => false
   end.
 
